@@ -26,7 +26,7 @@ theorem close_twice_noop (flag : Bool) (s : State) (h : s.onceStarted = true) :
 
 /-- `Close` is the `closeOnce.Do` of the source (the only bare operation in `client.Close`) -/
 theorem close_under_once :
-    bareOps.filter (·.fn = "client.Close") = [⟨"client.go", "client.Close", "do", "c.closeOnce"⟩] := by
+    bareOps.filter (·.fn = "client.Close") = [⟨"gohbase", "client.Close", "do", "c.closeOnce"⟩] := by
   decide
 
 example : run true init [.closeBegin, .closeAllRun, .closeBegin] =
@@ -53,7 +53,7 @@ theorem admin_path_checks_done :
   decide
 
 /-- negative: a wait without the `done` case would not pass -/
-example : ¬ ("recv:c.done" ∈ (⟨"rpc.go", "sendBlocking", 0, ["recv:ctx.Done()", "recv:rpc.ResultChan()"]⟩ : Sel).cases) := by
+example : ¬ ("recv:c.done" ∈ (⟨"gohbase", "sendBlocking", 0, ["recv:ctx.Done()", "recv:rpc.ResultChan()"]⟩ : Sel).cases) := by
   decide
 
 /-! ## closeAll closes what is cached -/
